@@ -190,7 +190,7 @@ def check_stream_case(case):
 
     S.install_probes()
     n = case["n"]
-    tab = S.table(n, case["z"], case["ll"])
+    tab = S.table(n, case["z"], case["ll"], case.get("shuffled", False))
     cuts = case["cuts"]
     mods = dict(qartod=dict(vprobe_test=dict(code=3), spike_test=dict(suspect_threshold=1, fail_threshold=5)))
     bounds = [None] + [S.T0 + c * S.DAY for c in cuts] + [None]
@@ -317,6 +317,8 @@ def run_task(task, acc):
                 perms = itertools.permutations(range(nres)) if nres <= 6 else _some_perms(nres)
                 for p in perms:
                     yield dict(kind="stream", fe=fe, n=n, z=z, ll=ll, cuts=cuts, perm=list(p))
+                if fe != "xarray:var":
+                    yield dict(kind="stream", fe=fe, n=n, z=z, ll=ll, cuts=cuts, perm=list(range(nres)), shuffled=True)
         run_cases(acc, gen(), check_case)
 
 
